@@ -28,7 +28,8 @@ def init():
         src = pool_source(i)
         fn = pool_filename(i)
         linecache.cache[fn] = (len(src), None, src.splitlines(True), fn)
-        ns = {"__name__": "treesmod"}
+        # (one pool function lives in a module whose name has line breaks in it: names are free text too)
+        ns = {"__name__": "trees\nmod\rX" if i == 5 else "treesmod"}
         exec(compile(src, fn, "exec"), ns)
         g = ns["fn%d" % i]()
         next(g)
@@ -143,6 +144,9 @@ def build_frame(f):
                  hide=f.get("hide", False), hide_line=f.get("hide_line", False), **kw)
 
 
+MLNamed = type("Obj\nK\rL", (), {"__repr__": lambda self: "Obj_k"})   # a manager type whose NAME spans lines
+
+
 def build_ctx(c):
     obj = None
     if c.get("obj") == "int":
@@ -150,9 +154,12 @@ def build_ctx(c):
     elif c.get("obj") == "str":
         obj = "s"
     elif c.get("obj") == "obj":
-        obj = Obj("k")
+        obj = MLNamed() if ML_TEXT[0] else Obj("k")
+    varname = c.get("varname")
+    if varname is not None and ML_TEXT[0]:
+        varname = "%s[\n 0]" % varname      # (an `as` target written over two lines, kept verbatim by whoever built the Context)
     ctx = Context(obj=obj, is_async=c.get("is_async", False), is_exiting=c.get("is_exiting", False),
-                  varname=c.get("varname"), start_line=c.get("start_line"), description=_text(c.get("description"), False),
+                  varname=varname, start_line=c.get("start_line"), description=_text(c.get("description"), False),
                   hide=c.get("hide", False))
     if c.get("inner") is not None:
         ctx.inner_stack = build_stack(c["inner"])
